@@ -38,7 +38,9 @@ import (
 	"github.com/nuts-foundation/go-did/vc"
 	nutsCrypto "github.com/nuts-foundation/nuts-node/crypto"
 	"github.com/nuts-foundation/nuts-node/crypto/hash"
+	"github.com/nuts-foundation/nuts-node/jsonld"
 	"github.com/nuts-foundation/nuts-node/network/dag"
+	"github.com/piprate/json-gold/ld"
 	"github.com/nuts-foundation/nuts-node/vcr/credential"
 	"github.com/nuts-foundation/nuts-node/vcr/pe"
 	"github.com/nuts-foundation/nuts-node/vcr/signature/proof"
@@ -706,6 +708,87 @@ func TestVerifC19(t *testing.T) {
 		credFilterOps([]vc.VerifiableCredential{*c}, in, "vc")
 		credAutoOp(*c, in, "vc")
 	}
+	// jsonld: the recover guard around json-gold (NutsModel/C19/JsonLd.lean). What the processor does with the document is observed on the
+	// processor ITSELF (same options, under the harness's own recover) and is data for the model; then the three REAL guarded functions run.
+	ldLoader := jsonld.NewTestJSONLDManager(t).DocumentLoader()
+	jsonldOp := func(in string) {
+		if len(in) == 0 || in[0] != '{' && in[0] != '[' && in[0] != '"' {
+			return
+		}
+		probe := func(fn func() error) string {
+			return c19Guard(func() (res string) {
+				defer func() {
+					if r := recover(); r != nil {
+						res = "panic"
+					}
+				}()
+				if fn() != nil {
+					return "err"
+				}
+				return "ok"
+			})
+		}
+		var asMap map[string]interface{}
+		jsonOk := json.Unmarshal([]byte(in), &asMap) == nil
+		op := map[string]any{"op": "jsonld.guard", "jsonOk": jsonOk, "docOk": false, "normalize": "ok", "expand": "ok", "expandDoc": "ok"}
+		if jsonOk {
+			op["normalize"] = probe(func() error {
+				opts := ld.NewJsonLdOptions("")
+				opts.DocumentLoader, opts.Format, opts.Algorithm = ldLoader, "application/n-quads", "URDNA2015"
+				var m map[string]interface{}
+				json.Unmarshal([]byte(in), &m)
+				_, err := ld.NewJsonLdProcessor().Normalize(m, opts)
+				return err
+			})
+			op["expand"] = probe(func() error {
+				opts := ld.NewJsonLdOptions(jsonld.JSONLdBase)
+				opts.DocumentLoader, opts.SafeMode = ldLoader, true
+				var m map[string]interface{}
+				json.Unmarshal([]byte(in), &m)
+				_, err := ld.NewJsonLdProcessor().Expand(m, opts)
+				return err
+			})
+		}
+		if doc, err := ld.DocumentFromReader(strings.NewReader(in)); err == nil {
+			op["docOk"] = true
+			op["expandDoc"] = probe(func() error {
+				opts := ld.NewJsonLdOptions("")
+				opts.DocumentLoader, opts.SafeMode = ldLoader, true
+				_, err := ld.NewJsonLdProcessor().Expand(doc, opts)
+				return err
+			})
+		}
+		for _, k := range []string{"normalize", "expand", "expandDoc"} {
+			if s, _ := op[k].(string); s != "ok" && s != "err" && s != "panic" {
+				op[k] = "err" // (a probe that timed out: not data the model can use)
+			}
+		}
+		cls := func(err error, parsed bool, result bool) string {
+			switch {
+			case err == nil:
+				return "ok"
+			case result:
+				return "INVARIANT-BROKEN a result was returned together with an error"
+			case strings.Contains(err.Error(), "jsonld: invalid document"):
+				return "err:invalid-document"
+			case !parsed:
+				return "err:json"
+			}
+			return "err:processor"
+		}
+		c19Mark(map[string]any{"op": "jsonld.guard", "input": in})
+		line := "canon=" + c19Class(c19Guard(func() string {
+			res, err := jsonld.LDUtil{LDDocumentLoader: ldLoader}.Canonicalize(json.RawMessage(in))
+			return cls(err, jsonOk, err != nil && res != nil)
+		})) + " read=" + c19Class(c19Guard(func() string {
+			doc, err := jsonld.Reader{DocumentLoader: ldLoader}.ReadBytes([]byte(in))
+			return cls(err, jsonOk, err != nil && doc != nil)
+		})) + " fields=" + c19Class(c19Guard(func() string {
+			return cls(jsonld.AllFieldsDefined(ldLoader, []byte(in)), op["docOk"] == true, false)
+		}))
+		o.dist["jsonld.guard:processor="+fmt.Sprint(op["normalize"], "/", op["expand"], "/", op["expandDoc"])]++
+		emitOnce(op, in, line)
+	}
 	credOp := func(in string) {
 		vp, err := vc.ParseVerifiablePresentation(in)
 		if err != nil {
@@ -817,6 +900,10 @@ func TestVerifC19(t *testing.T) {
 			in, _ := op["input"].(string)
 			credOp(in)
 		}
+		if op["op"] == "jsonld.guard" {
+			in, _ := op["input"].(string)
+			jsonldOp(in)
+		}
 		if op["op"] == "cred.dates" || op["op"] == "cred.autocorrect" || op["op"] == "cred.filter" {
 			in, _ := op["input"].(string)
 			if op["src"] == "vc" {
@@ -839,6 +926,7 @@ func TestVerifC19(t *testing.T) {
 	if isReplay {
 		return
 	}
+	jsonldSeq := 0
 	run := func(ep string, in string, kind string) {
 		o.dist[ep+":"+kind]++
 		fn := eps[ep]
@@ -851,6 +939,12 @@ func TestVerifC19(t *testing.T) {
 		}
 		if ep == "credential.vc" {
 			credVCOp(in)
+		}
+		if (ep == "credential.vc" || ep == "credential.vp") && !strings.HasPrefix(kind, "rand:") && !strings.HasPrefix(kind, "jwt-") {
+			// (six processor runs per document: the quick tier takes every fourth systematic mutant, the table below is always run in full)
+			if jsonldSeq++; n > 1000 || jsonldSeq%4 == 0 {
+				jsonldOp(in)
+			}
 		}
 		if ep == "crypto.ParseJWT" {
 			jwxOp(in)
@@ -1303,6 +1397,31 @@ func TestVerifC19(t *testing.T) {
 			}
 			o.dist["cred.dates:jwt-table"]++
 			credOp(sg.compact([]byte(`{"alg":"ES256","typ":"JWT","kid":"did:web:holder.example.com#key-1"}`), []byte(claims+`}`), true))
+		}
+	}
+	{
+		// documents json-gold is known to PANIC on (a scalar where the context defines a @graph container, a number where it expects a string), as
+		// credential, as credential inside a presentation, and the same members at the top level; plus plain malformed JSON
+		for _, member := range []string{`"proof":true`, `"proof":5`, `"proof":"x"`, `"proof":null`, `"proof":[true]`, `"type":5`, `"type":[5]`, `"@type":5`, `"@id":5`, `"id":5`, `"issuer":{"@id":5}`, `"@context":5`, `"@context":[5]`,
+			`"credentialSubject":{"@type":5}`, `"credentialSubject":{"@id":5}`, `"issuanceDate":{"@value":5,"@type":5}`, `"@graph":true`, `"@reverse":5`, `"@included":5`, `"@nest":5`, `"proof":{"@graph":5}`, `"proof":{"@list":5}`, `"@language":5`} {
+			vcDoc := strings.Replace(validVC, `"issuer":"did:web:example.com",`, `"issuer":"did:web:example.com",`+member+`,`, 1)
+			key := member[:strings.Index(member, ":")]
+			if strings.Count(validVC, key+":") > 0 && key != `"id"` && key != `"type"` {
+				// replace the existing member instead of duplicating it
+				var m map[string]json.RawMessage
+				json.Unmarshal([]byte(validVC), &m)
+				m[strings.Trim(key, `"`)] = json.RawMessage(member[len(key)+1:])
+				b, _ := json.Marshal(m)
+				vcDoc = string(b)
+			}
+			for _, doc := range []string{vcDoc, `{"@context":["https://www.w3.org/2018/credentials/v1"],"type":"VerifiablePresentation","verifiableCredential":` + vcDoc + `}`, `{"@context":["https://www.w3.org/2018/credentials/v1"],` + member + `}`} {
+				o.dist["jsonld.guard:table"]++
+				jsonldOp(doc)
+			}
+		}
+		for _, doc := range []string{`{`, `[]`, `[{}]`, `"x"`, `{}`, `{"@context":"https://www.w3.org/2018/credentials/v1"}`, `{"@context":"https://unknown.example.com/ctx"}`, `{"a":"b"}`, validVC, validVP()} {
+			o.dist["jsonld.guard:table"]++
+			jsonldOp(doc)
 		}
 	}
 	jsystematic([]byte(validVC), func(b []byte, kind string) { run("credential.vc", string(b), kind) })
